@@ -166,12 +166,12 @@ func removeGen(name string) string {
 }
 
 type runner struct {
-	c        *vlib.Check
-	mu       sync.Mutex
-	fails    []*failure
-	infra    []string
-	points   int
-	features map[string]bool
+	c          *vlib.Check
+	mu         sync.Mutex
+	fails      []*failure
+	infra      []string
+	points     int
+	features   map[string]bool
 	buildEvery int
 }
 
